@@ -49,6 +49,7 @@ const (
 	pBad
 	pEmpty
 	pAtExport // the private passphrase in force when the file was exported
+	pCurPlus  // the current private passphrase with two more characters appended
 )
 
 type zzPassRef struct {
@@ -57,7 +58,7 @@ type zzPassRef struct {
 }
 
 func (p zzPassRef) String() string {
-	return fmt.Sprintf("%s#%d", [...]string{"curPriv", "curPub", "oldPriv", "oldPub", "fresh", "illformed", "empty", "atExport"}[p.K], p.N)
+	return fmt.Sprintf("%s#%d", [...]string{"curPriv", "curPub", "oldPriv", "oldPub", "fresh", "illformed", "empty", "atExport", "curPrivPlus"}[p.K], p.N)
 }
 
 type zzOp struct {
@@ -81,8 +82,13 @@ var zzBadPasses = [][]byte{[]byte("abc12"), []byte("0123456789012345678901234567
 
 func zzFreshPass(n int) []byte {
 	const alpha = "0123456789abcdefghijklmnopqrstuvwxyzABCDEFGHIJKLMNOPQRSTUVWXYZ@#$%^&"
-	b := sim.DetBytes("pass", uint64(n), 14)
-	out := make([]byte, 14)
+	// every third passphrase has the greatest admissible length
+	l := 14
+	if n%3 == 2 {
+		l = 40
+	}
+	b := sim.DetBytes("pass", uint64(n), l)
+	out := make([]byte, l)
 	for i, c := range b {
 		out[i] = alpha[int(c)%len(alpha)]
 	}
@@ -165,7 +171,7 @@ func zzRemark(i int) string {
 // passMix draws a passphrase argument: mostly the right one, otherwise every kind of wrong one.
 func zzPickPass(t *sim.Tape, label string, right zzPassKind, pRight int) zzPassRef {
 	if t.Bool(label+".wrong", 100-pRight, 100) {
-		k := []zzPassKind{pOldPriv, pOldPub, pCurPub, pCurPriv, pFresh, pBad, pEmpty}[t.Choose(label+".kind", 7)]
+		k := []zzPassKind{pOldPriv, pOldPub, pCurPub, pCurPriv, pFresh, pBad, pEmpty, pCurPlus}[t.Choose(label+".kind", 8)]
 		return zzPassRef{k, t.Choose(label+".n", 4)}
 	}
 	return zzPassRef{right, 0}
